@@ -371,14 +371,18 @@ def checkName (T : Tables K) (n : VName) : LRes K Unit :=
   | .regref => .error (.syntax .reservedRegref n.text n.pos, T)
   | .reserved => .error (.syntax .reservedKeyword n.text n.pos, T)
 
-/-- `exitExpressionvar` -/
-def execVar (st : LState K) (ty : VarType) (n : VName) (init : ArgVal) : LRes K (LState K) := do
-  let T := st.tables
+/-- `exitExpressionvar`: the tables afterwards -/
+def varEffect (T : Tables K) (ty : VarType) (n : VName) (init : ArgVal) : LRes K (Tables K) := do
   checkName T n
   let T' : Tables K := { T with params := T.params ++ init.pars.map .sym }
   let v ← liftE T' (evalArgVal T init)
   let fv ← liftE T' (castScalar ty v)
-  .ok { st with tables := { T' with vars := dictSet T'.vars n.text fv } }
+  .ok { T' with vars := dictSet T'.vars n.text fv }
+
+def execVar (st : LState K) (ty : VarType) (n : VName) (init : ArgVal) : LRes K (LState K) :=
+  match varEffect st.tables ty n init with
+  | .ok T' => .ok { st with tables := T' }
+  | .error e => .error e
 
 def allSameLength {α} : List (List α) → Bool
   | [] => true
@@ -409,9 +413,8 @@ def assemble {K : Type} (dt : DType) (shp : Option (List Nat)) (crows : List (Li
       | none => .ok (.arr dt nr nc (crows.flatMap id))
 
 /-- `exitArrayvar` (repaired: parameter positions, row-length check) -/
-def execArr (tdm : Bool) (st : LState K) (ty : VarType) (pos : Pos) (n : VName)
-    (shape : Option (List String)) (body : ArrBody) : LRes K (LState K) := do
-  let T := st.tables
+def arrEffect (tdm : Bool) (T : Tables K) (ty : VarType) (pos : Pos) (n : VName)
+    (shape : Option (List String)) (body : ArrBody) : LRes K (Tables K) := do
   checkName T n
   match body with
   | .bare _ => .error (.attribute, T)      -- `ctx.arrayval()` is None for this alternative
@@ -438,9 +441,9 @@ def execArr (tdm : Bool) (st : LState K) (ty : VarType) (pos : Pos) (n : VName)
     let nvals := (erows.flatMap id).filter (fun x => x.2.isNone) |>.length
     let parsHere := (erows.flatMap id).filterMap (·.2)
     let shp := shape.map (·.map digitsToNat)
-    let finish (T : Tables K) (v : Val K) : LState K :=
+    let finish (T : Tables K) (v : Val K) : Tables K :=
       let T : Tables K := if tdm && isPType n.text then { T with params := T.params ++ [.pname n.text] } else T
-      { st with tables := { T with vars := dictSet T.vars n.text v } }
+      { T with vars := dictSet T.vars n.text v }
     if nvals = 0 && parsHere.length = 1 then
       -- whole-array parameter
       match shp, parsHere with
@@ -459,6 +462,13 @@ def execArr (tdm : Bool) (st : LState K) (ty : VarType) (pos : Pos) (n : VName)
       | .error .ragged => .error (.syntax .ragged n.text pos, T')
       | .error .shape => .error (.syntax .shapeMismatch n.text pos, T')
       | .error .empty => .error (.value, T')              -- reshape(0, -1)
+
+/-- `exitArrayvar` -/
+def execArr (tdm : Bool) (st : LState K) (ty : VarType) (pos : Pos) (n : VName)
+    (shape : Option (List String)) (body : ArrBody) : LRes K (LState K) :=
+  match arrEffect tdm st.tables ty pos n shape body with
+  | .ok T' => .ok { st with tables := T' }
+  | .error e => .error e
 
 def execItem (o : SetOrder Int) (tdm : Bool) (incs : Includes K) (st : LState K) : Item → LRes K (LState K)
   | .var ty n init => execVar st ty n init
